@@ -83,6 +83,48 @@ func multisetDiff(got, want []string) string {
 	return fmt.Sprintf("unexpected rows [%s] missing rows [%s] (tbl/block/key/val)", trim(extra), trim(missing))
 }
 
+// rowContents spells out the content (columns other than stamps and keys, in sorted column
+// order) of the first unexpected and the first missing row of a multiset difference.
+func (w *World) rowContents(got, want []string) string {
+	m := map[string]int{}
+	for _, g := range got {
+		m[g]++
+	}
+	for _, x := range want {
+		m[x]--
+	}
+	var extra, missing []string
+	for k, v := range m {
+		if v > 0 {
+			extra = append(extra, k)
+		}
+		if v < 0 {
+			missing = append(missing, k)
+		}
+	}
+	sort.Strings(extra)
+	sort.Strings(missing)
+	content := func(k string) string {
+		var tbl, bn, key, val int
+		if _, err := fmt.Sscanf(k, "%d/%d/%d/%d", &tbl, &bn, &key, &val); err != nil {
+			return "?"
+		}
+		c := w.Names.ValStr(val)
+		if len(c) > 160 {
+			c = c[:160] + "..."
+		}
+		return fmt.Sprintf("block %d key %s: %s", bn, w.Names.KeyStr(key), c)
+	}
+	out := ""
+	if len(extra) > 0 {
+		out += "; first unexpected row = " + content(extra[0])
+	}
+	if len(missing) > 0 {
+		out += "; first missing row = " + content(missing[0])
+	}
+	return out
+}
+
 func (w *World) blockRows(t *TaskH, b BlkID) []string {
 	tbl := w.Names.TblID(t.Info.Table)
 	var out []string
@@ -141,6 +183,12 @@ func (r *Run) InvOracle() []string {
 				}
 			}
 		case "snap":
+			for _, rw := range e.Db.Rows {
+				if rw.Null != "" {
+					report(i, "a committed row of table %s has NULL in%s: it belongs to no (source, integration, block), so no task's reorg deletion (src_name = .. and ig_name = .. and block_num >= ..) can ever remove it", w.Names.rev(w.Names.Tbl, rw.Tbl), rw.Null)
+					break
+				}
+			}
 			for _, t := range w.Tasks {
 				s, p := state[t.ID], w.pair(t)
 				rows := pairRows(e.Db, p)
@@ -209,7 +257,7 @@ func (r *Run) InvOracle() []string {
 					got = append(got, rowKeyStr(rw))
 				}
 				if d := multisetDiff(got, want); d != "" {
-					report(i, "task %d at position %d: rows do not cover exactly the indexed blocks: %s", t.ID, cur.Num, d)
+					report(i, "task %d at position %d: rows do not cover exactly the indexed blocks: %s%s", t.ID, cur.Num, d, w.rowContents(got, want))
 				}
 			}
 		}
@@ -809,16 +857,7 @@ func (r *Run) RangeOracle() []string {
 				}
 			}
 			if e.Op.Name == "RGet" {
-				// the stop (and the batch size) reach the source only as the limit of Get
-				for k, sg := range e.Op.Segs {
-					if sg.Fail != "" || k >= len(e.Op.Parts) || len(sg.Blocks) == 0 {
-						continue
-					}
-					pt := e.Op.Parts[k]
-					if uint64(len(sg.Blocks)) != pt[1] || sg.Blocks[0].Num != pt[0] {
-						bad = append(bad, fmt.Sprintf("event %d task %d: Source.Get(start %d, limit %d) was answered with %d blocks %d..%d", i, t.ID, pt[0], pt[1], len(sg.Blocks), sg.Blocks[0].Num, sg.Blocks[len(sg.Blocks)-1].Num))
-					}
-				}
+				bad = append(bad, getLimit(i, t.ID, e.Op)...)
 			}
 			if e.Op.Name == "RGet" && !s.loaded && len(e.Op.Parts) > 0 {
 				s.loaded = true
@@ -892,6 +931,34 @@ func (r *Run) RangeOracle() []string {
 	}
 	if len(bad) > 8 {
 		bad = bad[:8]
+	}
+	return bad
+}
+
+// getLimit: the stop, the batch size and the dependency bound reach the source only as the
+// limit of Get: every successful Source.Get(start, limit) is answered with exactly limit
+// blocks beginning at start.
+func getLimit(i, tid int, op *Op) []string {
+	var bad []string
+	for k, sg := range op.Segs {
+		if sg.Fail != "" || k >= len(op.Parts) || len(sg.Blocks) == 0 {
+			continue
+		}
+		pt := op.Parts[k]
+		if uint64(len(sg.Blocks)) != pt[1] || sg.Blocks[0].Num != pt[0] {
+			bad = append(bad, fmt.Sprintf("event %d task %d: Source.Get(start %d, limit %d) was answered with %d blocks %d..%d", i, tid, pt[0], pt[1], len(sg.Blocks), sg.Blocks[0].Num, sg.Blocks[len(sg.Blocks)-1].Num))
+		}
+	}
+	return bad
+}
+
+// GetLimitOracle applies getLimit to every load of the run.
+func (r *Run) GetLimitOracle() []string {
+	var bad []string
+	for i, e := range r.W.Rec.Events {
+		if e.Kind == "op" && e.Op.Name == "RGet" && len(bad) < 4 {
+			bad = append(bad, getLimit(i, e.Tid, e.Op)...)
+		}
 	}
 	return bad
 }
